@@ -31,8 +31,12 @@ def branch_edges(block):
     t = block.term
     out = []
     if t is not None and block.cond is not None and len(block.succs) == 2 and t.k != "switch":
-        out.append((block.succs[0], block.cond, True))
-        out.append((block.succs[1], block.cond, False))
+        c = block.cond
+        # clang reports the whole `a && b` as the condition of the block that evaluates b
+        while c.k == "bin" and c.op in ("&&", "||"):
+            c = c.kids[1]
+        out.append((block.succs[0], c, True))
+        out.append((block.succs[1], c, False))
     else:
         for s in block.succs:
             out.append((s, None, None))
@@ -174,3 +178,30 @@ def compare_of(cond, truth):
         op = cond.op if truth else NEG[cond.op]
         return (cond.kids[0], op, cond.kids[1])
     return (cond, "!=" if truth else "==", None)
+
+
+def forward_paths(fn, init, transfer, edge=None, cap=48, start=None):
+    """Path-sensitive (disjunctive) forward analysis.  A state is a frozenset of fact-sets
+    (one per class of paths); `transfer(facts, node)` and `edge(facts, blk, succ, cond, truth)`
+    work on one fact-set.  Joins are unions, collapsed to the common facts above `cap`."""
+    def T(S, n):
+        return frozenset(transfer(s, n) for s in S)
+
+    def E(S, blk, succ, cond, truth):
+        if edge is None:
+            return S
+        out = set()
+        for s in S:
+            r = edge(s, blk, succ, cond, truth)
+            if r is not None:
+                out.add(r)
+        return frozenset(out) if out else None
+
+    def J(a, b):
+        u = a | b
+        if len(u) > cap:
+            return frozenset([frozenset.intersection(*u)])
+        return u
+
+    IN, OUT = forward(fn, frozenset([init]), T, J, edge=E, start=start)
+    return IN, OUT, T
